@@ -97,7 +97,7 @@ class C02(C01):
     props_module = "CBV.Props.C02"
     # C02 is about the loop (termination, completeness, order): M-PROP on the schedule as the implementation holds it
     model_paths = ("prop",)
-    modes = [("well", 0.35), ("under", 0.25), ("sandwich", 0.2), ("double", 0.1), ("conflict", 0.1)]
+    modes = [("well", 0.27), ("under", 0.25), ("sandwich", 0.18), ("double", 0.1), ("conflict", 0.1), ("row", 0.1)]
     rule = (
         C01.rule
         + " Plus: per case the step-by-step trace of Axis.copy_grading calls (compared with M-PROP°), a second run of "
